@@ -191,13 +191,18 @@ Inductive op :=
 | ORemove (name : Z)                                (* RemoveStreamHandler *)
 | OKnow (k : list Z)                                (* peerstore SetProtocols(listener, k) *)
 | OBatch (opens : list oreq)                        (* concurrent NewStream + first use; 1 = sequential *)
-| OClose (slot how : Z).                            (* both ends close (0) / reset (1) a held stream *)
+| OClose (slot how : Z)                             (* both ends close (0) / reset (1) a held stream *)
+| OReconnect (dir wait : Z).                        (* the connection is closed and a new one appears below
+                                                       the host (dir 0: dialer's Network().DialPeer, 1: the
+                                                       listener dials = inbound); wait 0: the next op (an
+                                                       open) races the new connection's identify *)
 
 Inductive obs :=
 | ObMux (l : list Z)                     (* Mux().Protocols() in table order *)
 | ObKnow (l : list Z)                    (* knowledge, sorted, within the universe *)
 | ObBatch (rs : list ores) (un : list (Z * Z)) (kn : list Z) (sc : list Z)
-| ObClose (sc : list Z).
+| ObClose (sc : list Z)
+| ObRe (mx : list Z) (sc : list Z).      (* what the listener advertises; scopes after the old streams died *)
 
 Fixpoint zrange (from : Z) (n : nat) : list Z :=
   match n with O => [] | S k => from :: zrange (from + 1) k end.
@@ -239,6 +244,14 @@ Section MSRun.
              ObClose (scope_vec U o' i'))
         | None => (s, ObClose (scope_vec U (outD s) (inL s)))
         end
+    | OReconnect _ _ =>
+        (* every stream of the old connection is gone; identify on the new
+           connection replaces what the peerstore lists for the listener by
+           what its muxer advertises, and NewStream waits for that identify
+           (IdentifyWait) before it looks at the peerstore *)
+        let z := fun _ : Z => 0 in
+        (mkSt (tbl s) (nreg s) (mux_protocols (tbl s)) z z [] (nslot s),
+         ObRe (mux_protocols (tbl s)) (scope_vec U z z))
     end.
 
   Fixpoint trace (U : Z) (c : cfg) (s : st) (ops : list op) : list (op * obs) :=
